@@ -6,242 +6,11 @@ tables written by hand. Checked by `decide +kernel` (no axioms). Separate from
 Proofs/LeafBridge.lean (which imports this module) so that the two are checked in parallel and a
 change of a leaf *function* does not re-check the tables, nor the other way round.
 -/
-import XehModel.Generated.Tables
-import XehModel.Model.Arith
-
-namespace Xeh.LeafBridge
-open Xeh.Generated
-
-/-! The expected tables below are written by hand from the source as it is now (after the `fix:`
-commits). `tools/extract.py` regenerates the `src_*` side on every run; an edit of a registration,
-of an operator in arith.rs, of a limit test or a new direct mutation of an interpreter stack makes
-one of these `decide`s fail. -/
-
-/-- the immediate (compile-time) words, in registration order -/
-def expectedImmediates : List String := [
-  "if", "else", "then", "case", "of", "endof", "endcase", "begin", "while", "until",
-  "break", "repeat", "[", "]", "{", "}", ":", ";", "late", "immediate",
-  "local", "var", "!", "nil", "#(", "#)", "~)", "const", "do", "loop",
-  "foreach", "defined", "let", "include", "require", "^{", "^}", "^hex", "^dec", "^oct",
-  "^bin", "fmt/prefix", "fmt/tags", "fmt/upcase", "see", "enum", "endenum"
-]
-
-theorem immediates_match : src_immediates = expectedImmediates := rfl
-
-/-- arith.rs, word by word: which Rust operation implements the integer arm and which the real arm
-    (next to the model words of Model/Arith.lean: `wordAdd` = `wrap128 (a + b)` ↔ `wrapping_add`,
-    `wordDiv` = zero test, `tdiv`, range test ↔ `== 0 DivisionByZero checked_div IntegerOverflow`,
-    `wordRem` ↔ `wrapping_rem`, `wordNeg`/`wordAbs` ↔ `checked_neg`/`checked_abs`, `shl128`/`shr128`
-    with `shiftCount` ↔ `wrapping_shl/shr(a, b as u32)`, …); last the shared helpers: operands are
-    popped right then left, the integer arm is taken on the *right* operand's type, `ops(a, b)`
-    keeps the operand order. -/
-def expectedArithOps : List (String × String) := [
-  ("+", "int: wrapping_add real: Add::add"),
-  ("-", "int: wrapping_sub real: Sub::sub"),
-  ("*", "int: wrapping_mul real: Mul::mul"),
-  ("/", "int: to_xint == 0 DivisionByZero checked_div IntegerOverflow real: to_real == 0.0 DivisionByZero /"),
-  ("neg", "int: checked_neg IntegerOverflow real: neg"),
-  ("abs", "int: checked_abs IntegerOverflow real: abs"),
-  ("<", "int: to_xint cmp real: to_real compare_reals() then: is_lt"),
-  ("<=", "int: to_xint cmp real: to_real compare_reals() then: is_le"),
-  (">", "int: to_xint cmp real: to_real compare_reals() then: is_gt"),
-  (">=", "int: to_xint cmp real: to_real compare_reals() then: is_ge"),
-  ("==", "int: to_xint cmp real: to_real compare_reals() then: is_eq"),
-  ("<>", "int: to_xint cmp real: to_real compare_reals() then: is_ne"),
-  ("rem", "int: to_xint == 0 DivisionByZero wrapping_rem real: to_real %"),
-  ("and", "to_bool & to_bool"),
-  ("or", "to_bool | to_bool"),
-  ("xor", "to_bool ^ to_bool"),
-  ("not", "to_bool not"),
-  ("band", "int: BitAnd::bitand"),
-  ("bor", "int: BitOr::bitor"),
-  ("bxor", "int: BitXor::bitxor"),
-  ("bnot", "to_xint not"),
-  ("bsl", "int: wrapping_shl as u32"),
-  ("bsr", "int: wrapping_shr as u32"),
-  ("round", "to_real round"),
-  ("random", "getrandom::getrandom u32::from_le_bytes as Xreal / u32::MAX as Xreal"),
-  ("min", "int: min real: min"),
-  ("max", "int: max real: max"),
-  (">real", "to_xint as Xreal"),
-  (">int", "to_real as Xint"),
-  ("zero?", "int: == 0 real: == 0.0"),
-  ("positive?", "int: > 0 real: > 0.0"),
-  ("negative?", "int: < 0 real: < 0.0"),
-  ("popcnt", "to_xint count_ones"),
-  ("fn arithmetic_ops_int", "to_xint to_xint ops_int(a,b)"),
-  ("fn arithmetic_ops_real", "int: to_xint ops_int(a,*b) real: to_real ops_real(a,*b)"),
-  ("fn compare_cells", "int: to_xint cmp real: to_real compare_reals()"),
-  ("fn compare_reals", "< Ordering::Less > Ordering::Greater Ordering::Equal")
-]
-
-theorem arith_table_matches : src_arith = expectedArithOps := rfl
-
-/-- the words arith.rs registers (all non-immediate), in registration order -/
-def expectedArithWords : List String := [
-  "+", "-", "*", "/", "neg", "abs", "<", "<=", ">", ">=",
-  "==", "<>", "rem", "and", "or", "xor", "not", "band", "bor", "bxor",
-  "bnot", "bsl", "bsr", "round", "random", "min", "max", ">real", ">int", "zero?",
-  "positive?", "negative?", "popcnt"
-]
-
-theorem arith_words_match : src_arith_words = expectedArithWords := rfl
-
-/-- every word of the model's arithmetic table (`Xeh.arithTable`, Model/Arith.lean) is registered by
-    arith.rs … -/
-theorem arith_words_registered : ∀ w ∈ Xeh.arithTable.map (·.1), w ∈ src_arith_words := by
-  decide +kernel
-
-/-- … and the model covers every word arith.rs registers, except `random` -/
-theorem arith_words_modelled :
-    ∀ w ∈ src_arith_words, w = "random" ∨ w ∈ Xeh.arithTable.map (·.1) := by
-  decide +kernel
-
-/-- the macro-generated data words: for every width the twelve integer words, for 32/64 the six
-    float words, each bound to the reader / writer with that width and byte order -/
-def expectedDataWords : List (String × String) :=
-  (["8", "16", "32", "64"].flatMap fun n => [
-    ("u" ++ n, "|xs|read_unsigned_n(xs," ++ n ++ ")"),
-    ("u" ++ n ++ "le", "|xs|read_unsigned(xs," ++ n ++ ",Byteorder::Little)"),
-    ("u" ++ n ++ "be", "|xs|read_unsigned(xs," ++ n ++ ",Byteorder::Big)"),
-    ("i" ++ n, "|xs|read_signed_n(xs," ++ n ++ ")"),
-    ("i" ++ n ++ "le", "|xs|read_signed(xs," ++ n ++ ",Byteorder::Little)"),
-    ("i" ++ n ++ "be", "|xs|read_signed(xs," ++ n ++ ",Byteorder::Big)"),
-    ("u" ++ n ++ "!", "|xs|pack_int(xs," ++ n ++ ")"),
-    ("u" ++ n ++ "le!", "|xs|pack_int_bo(xs," ++ n ++ ",Byteorder::Little)"),
-    ("u" ++ n ++ "be!", "|xs|pack_int_bo(xs," ++ n ++ ",Byteorder::Big)"),
-    ("i" ++ n ++ "!", "|xs|pack_int(xs," ++ n ++ ")"),
-    ("i" ++ n ++ "le!", "|xs|pack_int_bo(xs," ++ n ++ ",Byteorder::Little)"),
-    ("i" ++ n ++ "be!", "|xs|pack_int_bo(xs," ++ n ++ ",Byteorder::Big)")]) ++
-  (["32", "64"].flatMap fun n => [
-    ("f" ++ n, "|xs|read_float_n(xs," ++ n ++ ")"),
-    ("f" ++ n ++ "le", "|xs|read_float(xs," ++ n ++ ",Byteorder::Little)"),
-    ("f" ++ n ++ "be", "|xs|read_float(xs," ++ n ++ ",Byteorder::Big)"),
-    ("f" ++ n ++ "!", "|xs|pack_float(xs," ++ n ++ ")"),
-    ("f" ++ n ++ "le!", "|xs|pack_float_bo(xs," ++ n ++ ",Byteorder::Little)"),
-    ("f" ++ n ++ "be!", "|xs|pack_float_bo(xs," ++ n ++ ",Byteorder::Big)")])
-
-theorem data_words_match : src_data_words = expectedDataWords := by decide +kernel
-
-/-- the three resource-limit tests: each compares the *current* size with `>=` against the limit
-    (so a limit of `n` admits exactly `n` cells / heap slots / instructions), an unset limit is
-    `usize::MAX`, and the outcome is an error return — not a panic, not a silent clamp -/
-def expectedLimitChecks : List (String × String × String × String × String × String) := [
-  ("check_stack_limit", "self.data_stack.len()", ">=", "limit", "self.stack_limit.unwrap_or(usize::MAX)", "return Err(Xerr::ErrorMsg(..))"),
-  ("check_heap_limit", "self.heap.len()", ">=", "limit", "self.heap_limit.unwrap_or(usize::MAX)", "return Err(Xerr::ErrorMsg(..))"),
-  ("insn_meter_increase", "self.insn_meter", ">=", "limit", "self.insn_limit.unwrap_or(usize::MAX)", "return Err(Xerr::ErrorMsg(..))")
-]
-
-theorem limit_comparisons_match_source :
-    src_limit_checks = expectedLimitChecks ∧
-    src_limit_effects = [("insn_meter_increase", "self.insn_meter+=1")] := ⟨rfl, rfl⟩
-
-/-- Every place of the crate (outside `#[cfg(test)]` and the `verif_hooks` block) that mutates one of
-    the interpreter's stacks / tables directly, as (field.operation, enclosing function), in source
-    order. `&mut` = a mutable borrow of the field or of one of its elements, `[]=` = assignment
-    through an index. Read it as: the run-time stacks (`data_stack return_stack loops special heap`)
-    are touched only by the primitives `push_data … alloc_heap`, their inverse `reverse_changes`,
-    the two unwinders `build_unwind` / `abort_run`, and `foreach_next` (logged since the C02 repair);
-    everything else is compile-time state (`code debug_map dict flow_stack nested input`). -/
-def expectedMutationSites : List (String × String) := [
-  ("input.truncate", "build_unwind"),
-  ("nested.truncate", "build_unwind"),
-  ("flow_stack.truncate", "build_unwind"),
-  ("code.truncate", "build_unwind"),
-  ("debug_map.truncate", "build_unwind"),
-  ("dict.get_mut", "build_unwind"),
-  ("dict.truncate", "build_unwind"),
-  ("heap.truncate", "build_unwind"),
-  ("data_stack.truncate", "build_unwind"),
-  ("return_stack.truncate", "build_unwind"),
-  ("loops.truncate", "build_unwind"),
-  ("special.truncate", "build_unwind"),
-  ("input.push", "intern_source"),
-  ("input.last_mut", "next_token"),
-  ("input.pop", "next_token"),
-  ("nested.push", "context_open"),
-  ("nested.pop", "context_close"),
-  ("code.truncate", "context_close"),
-  ("debug_map.truncate", "context_close"),
-  ("dict.swap_remove", "context_close"),
-  -- repair 0bda475: the results of a meta block are taken off the stack without a reverse-log entry;
-  -- the model function that accounts for it is `Session.emitResults` (Model/Session.lean)
-  ("data_stack.pop", "context_close"),
-  ("dict.push", "dict_insert"),
-  ("debug_map.[]=", "code_emit"),
-  ("debug_map.push", "code_emit"),
-  ("code.push", "code_emit"),
-  ("code.[]=", "backpatch"),
-  ("heap.get_mut", "swap_cell_ref"),
-  ("heap.push", "alloc_heap"),
-  ("return_stack.truncate", "abort_run"),
-  ("loops.truncate", "abort_run"),
-  ("special.truncate", "abort_run"),
-  -- `Resolve` inside a meta block binds for one execution: swap the opcode in, run it, put `Resolve` back
-  -- (Model/VM.lean `patchCode`)
-  ("code.&mut", "fetch_and_run"),
-  ("code.[]=", "fetch_and_run"),
-  ("data_stack.pop", "reverse_changes"),
-  ("data_stack.push", "reverse_changes"),
-  ("data_stack.swap", "reverse_changes"),
-  ("data_stack.swap", "reverse_changes"),
-  ("return_stack.pop", "reverse_changes"),
-  ("return_stack.push", "reverse_changes"),
-  ("loops.push", "reverse_changes"),
-  ("loops.pop", "reverse_changes"),
-  ("loops.last_mut", "reverse_changes"),
-  ("special.push", "reverse_changes"),
-  ("special.pop", "reverse_changes"),
-  ("heap.get_mut", "reverse_changes"),
-  ("flow_stack.pop", "pop_flow"),
-  ("flow_stack.push", "push_flow"),
-  ("data_stack.push", "push_data"),
-  ("data_stack.pop", "pop_data"),
-  ("data_stack.swap", "swap_data"),
-  ("data_stack.swap", "rot_data"),
-  ("return_stack.push", "push_return"),
-  ("return_stack.pop", "pop_return"),
-  ("return_stack.&mut", "top_frame"),
-  ("loops.push", "push_loop"),
-  ("loops.pop", "pop_loop"),
-  ("loops.last_mut", "loop_next"),
-  ("special.push", "push_special"),
-  ("special.pop", "pop_special"),
-  ("flow_stack.remove", "take_first_cond_flow"),
-  ("dict.get_mut", "core_word_def_end"),
-  ("dict.get_mut", "core_word_immediate"),
-  ("dict.&mut", "core_word_const"),
-  ("loops.last_mut", "foreach_next"),
-  ("flow_stack.last_mut", "enum_field_default"),
-  ("flow_stack.last_mut", "enum_field_set_value")
-]
-
-theorem mutation_sites_match : src_mutation_sites = expectedMutationSites := rfl
-
-/-- all of them are in state.rs (the fields are private to that module) -/
-theorem mutation_sites_in_state_rs : src_mutation_files = List.replicate 66 "state.rs" := by decide +kernel
-
-/-- the functions that may touch a run-time stack (`data_stack return_stack loops special heap`), in
-    source order: the unwinder of a failed build, the closing of a meta block (it takes the block's results off the
-    stack to re-emit them as literals: `Session.emitResults`), the heap primitives, the run-time unwinder, the
-    reverse interpreter, the stack primitives `Prog` is built from (Model/Prog.lean) and
-    `foreach_next` (logged since the C02 repair) -/
-def runtimePrimitives : List String := [
-  "build_unwind", "context_close", "swap_cell_ref", "alloc_heap", "abort_run", "reverse_changes", "push_data",
-  "pop_data", "swap_data", "rot_data", "push_return", "pop_return", "top_frame",
-  "push_loop", "pop_loop", "loop_next", "push_special", "pop_special", "foreach_next"]
-
-/-- the statement that justifies modelling native words as programs over the primitives: no
-    function outside `runtimePrimitives` — in particular no `core_word_*` — mutates a run-time stack
-    directly -/
-theorem runtime_mutators_match : src_runtime_mutators = runtimePrimitives := rfl
-
-def isRuntimeField (site : String) : Bool :=
-  ["data_stack.", "return_stack.", "loops.", "special.", "heap."].any fun f => f.isPrefixOf site
-
-/-- the same, derived in Lean from the full site list (not from the translator's digest) -/
-theorem runtime_mutations_only_in_primitives :
-    ∀ s ∈ src_mutation_sites, isRuntimeField s.1 = true → s.2 ∈ runtimePrimitives := by
-  decide +kernel
-
-end Xeh.LeafBridge
+import XehModel.Proofs.Tables.Words
+import XehModel.Proofs.Tables.Arith
+import XehModel.Proofs.Tables.Data
+import XehModel.Proofs.Tables.Limits
+import XehModel.Proofs.Tables.BuildRoutes
+import XehModel.Proofs.Tables.LastError
+import XehModel.Proofs.Tables.ReverseLog
+import XehModel.Proofs.Tables.Mutations
